@@ -77,7 +77,20 @@ def generate(run_seed, tier):
             c["policies"] = common.gen_policies(rng, run_seed)
             c["history"] = False
             return c
-    case = G.gen_rule_case(rng, rules=RULES, max_c=6, tie_bias=0.5, pairwise_ties=True)
+    if rng.random() < 0.04:
+        # a positional rule whose vector has plateaus ((1,1,0), (2,1,1,0), ...) ties candidates that the scored tiebreaks separate:
+        # the tiebreak score ('borda' = the true Borda score, 'first_place') is then a different function from the deciding tally
+        case = G.gen_rule_case(rng, rules=("Borda",), max_c=5, tie_bias=0.8, subulp=0)
+        n = len(case["profile"]["candidates"])
+        L = rng.choice([max(1, n - 1), n, n])
+        vec = sorted([rng.choice([0, 0, 1, 1, 2]) for _ in range(L)], reverse=True)
+        if not any(vec):
+            vec[0] = 1
+        case["kw"]["score_vector"] = vec
+        case["kw"]["tiebreak"] = rng.choice(["borda", "borda", "first_place"])
+        case["shape"] = dict(case["shape"], law="plateau-vector")
+    else:
+        case = G.gen_rule_case(rng, rules=RULES, max_c=6, tie_bias=0.5, pairwise_ties=True)
     if "transfer" in case["kw"]:
         case["kw"]["transfer"] = "fractional"
     case["policies"] = common.gen_policies(rng, run_seed)
